@@ -497,7 +497,11 @@ func replayHandshake(c Case) Result {
 				sid := fmt.Sprintf("5e551041-0000-4000-8000-%012x", n)
 				if n == 1 {
 					r.log(Event{K: "badhs", N: n, Res: c.Cfg.Fault})
-					fmt.Fprintf(cn, `{"id":%q,"from":"postmaster@example.com/srv","to":"cli@example.com/i","state":%q}`+"\n", sid, c.Cfg.Fault)
+					if c.Cfg.Fault == "negotiating-empty" { // a negotiation that offers nothing, spelled out
+						fmt.Fprintf(cn, `{"id":%q,"from":"postmaster@example.com/srv","state":"negotiating","compressionOptions":[],"encryptionOptions":[]}`+"\n", sid)
+					} else {
+						fmt.Fprintf(cn, `{"id":%q,"from":"postmaster@example.com/srv","to":"cli@example.com/i","state":%q}`+"\n", sid, c.Cfg.Fault)
+					}
 				} else {
 					// (recorded before it is written: the client may return from Establish the moment it reads it)
 					r.log(Event{K: "session", N: n})
